@@ -43,7 +43,15 @@ FORMS = ("keys", "values", "items", "iterkeys", "itervalues", "iteritems")
 OMIT = "omit"                       # bound left out of the call (None = passed explicitly)
 
 
+def base_fam(fam):
+    return fam.split("~")[0]
+
+
 def key_of(fam, p):
+    # "OO~N": the object-keyed family with None - a legal key, the smallest - as the key of the lowest
+    # stored position (2); the bound positions at and below it are None too, i.e. "no bound" to the API
+    if fam.endswith("~N") and p <= 2:
+        return None
     return bytes([0, p]) if fam == "fs" else p
 
 
@@ -161,16 +169,18 @@ class Config:
         self.fam, self.kind, self.impl, self.sizes = fam, kind, impl, sizes
         self.is_set = kind in ("Set", "TreeSet")
         self.is_tree = kind in ("BTree", "TreeSet")
-        self.tag = "%s%s%s" % (fam, kind, "Py" if impl == "py" else "")
+        self.tag = "%s%s%s" % (base_fam(fam), kind, "Py" if impl == "py" else "")
+        self.nonekey = fam.endswith("~N")
         self.evals = 0
         self.fails = {}                # key -> Failure (one per key and configuration)
         self.prefix = ""               # "stale:" for the states built with stale separators
 
     def fail(self, key, desc, hist, call):
-        key = self.prefix + key
+        # (an empty container has no None key either: same key as in the plain configuration)
+        key = self.prefix + ("nonekey:" if self.nonekey and ":empty:" not in key else "") + key
         if key in self.fails:
             return
-        lines = ["from BTrees.%sBTree import %s as Base" % (self.fam, self.tag)]
+        lines = ["from BTrees.%sBTree import %s as Base" % (base_fam(self.fam), self.tag)]
         if self.is_tree:
             lines += ["class C(Base):", "    max_leaf_size, max_internal_size = %d, %d" % self.sizes]
         else:
@@ -198,7 +208,7 @@ class Config:
         for fn in ("minKey", "maxKey"):
             for b in [OMIT] + universe:
                 self.evals += 1
-                if b is OMIT:
+                if b is OMIT or key_of(self.fam, b) is None:      # a None bound means "no bound"
                     want = (ks[0] if fn == "minKey" else ks[-1]) if ks else None
                     cls_b = "no-bound" if ks else "empty"
                 else:
@@ -276,8 +286,8 @@ class Config:
                 for exlo in (False, True):
                     for exhi in (False, True):
                         n += 1
-                        plo = None if lo in (OMIT, None) else lo
-                        phi = None if hi in (OMIT, None) else hi
+                        plo = None if lo in (OMIT, None) or kb(lo) is None else lo
+                        phi = None if hi in (OMIT, None) or kb(hi) is None else hi
                         exp = expected(present, plo, phi, exlo, exhi)
                         args, kw = (kb(lo), kb(hi), exlo, exhi), {}
                         if OMIT in (lo, hi):     # leave the bound out: keyword form; a false flag is passed only sometimes
@@ -353,7 +363,7 @@ class StateSpec:
         self.spec = spec
 
     def script(self, cfg):
-        fam = cfg.fam
+        fam = base_fam(cfg.fam)
         return (["from BTrees.%sBTree import %s as T" % (fam, cfg.tag), "B = T._bucket_type"] +
                 BUILDER_SRC.rstrip().split("\n") +
                 ["key = lambda p: %s" % ("bytes([0, p])" if fam == "fs" else "p"),
@@ -439,7 +449,7 @@ def run_stale(job):
     from BTrees.check import check as pkg_check
     c = Config(fam, kind, impl, sizes)
     c.prefix = "stale:"
-    cls = H.get_class(fam, kind, impl, *sizes)
+    cls = H.get_class(base_fam(fam), kind, impl, *sizes)
     rng = random.Random("stale/%s/%s/%s/%s/%s" % (seed, fam, kind, impl, sizes))
     pos = list(range(2, 2 * nkeys + 1, 2))
     universe = list(range(0, 2 * nkeys + 3))
@@ -475,7 +485,7 @@ def run_job(job):
 def run_config(job):
     fam, kind, impl, sizes, nkeys, n_hist, cap, seed = job
     c = Config(fam, kind, impl, sizes)
-    cls = H.get_class(fam, kind, impl, *sizes)
+    cls = H.get_class(base_fam(fam), kind, impl, *sizes)
     rng = random.Random("%s/%s/%s/%s/%s" % (seed, fam, kind, impl, sizes))
     pos = list(range(2, 2 * nkeys + 1, 2))
     universe = list(range(0, 2 * nkeys + 3))
@@ -511,7 +521,8 @@ def main():
     stale_c, stale_py = (40, 16) if qs else (200, 70)
     s = Standin(
         name="range_rt",
-        bound="per (family, kind in BTree/TreeSet/Bucket/Set, C and Python, node sizes %s): states reached after any prefix "
+        bound="per (family - object-keyed families a second time with None, the smallest legal key, among the keys - , "
+              "kind in BTree/TreeSet/Bucket/Set, C and Python, node sizes %s): states reached after any prefix "
               "of %d seeded insert/delete histories on %d keys (ascending / descending / seeded fill, then thinning), of which "
               "up to %d (C) / %d (Python) are checked, picked round-robin over the distinct node structures; on each: "
               "minKey/maxKey without bound and with every bound in 0..%d; keys() plus one rotating form of values/items/"
@@ -533,10 +544,13 @@ def main():
                    "BTreeItems_length_or_nonzero", "BTreeIter_next", "Bucket_rangeSearch", "Bucket_maxminKey",
                    "_Tree.keys/minKey/maxKey", "_TreeItems (run-time)", "_BucketBase._range (run-time)"])
     jobs = []
-    for fam in H.fams():
+    # object-keyed families are also run with None - a legal key, the smallest - among the keys
+    for fam in H.fams() + [f + "~N" for f in H.fams() if f[0] == "O"]:
         for kind in ("BTree", "TreeSet", "Bucket", "Set"):
             for impl in ("c", "py"):
                 for sz in (sizes if kind in ("BTree", "TreeSet") else [(None, None)]):
+                    if fam.endswith("~N") and sz != sizes[0] and sz != (None, None):
+                        continue
                     jobs.append((fam, kind, impl, sz, nkeys, n_hist, cap_c if impl == "c" else cap_py, H.seed()))
     for fam in H.fams():
         for kind in ("BTree", "TreeSet"):
